@@ -20,7 +20,7 @@ ID = "C03"
 LEVEL = "model_checking"
 MIN_OUTCOMES = 2
 MANIFEST = {
-    'text': 'Complete enumeration of a constructed project table (pattern/state pairs x config formats x layouts x arrangements incl. all orders of different patterns on one line x line-ending regimes); each project is updated by the real CLI in-process and every occurrence, whose position and expected text are known by construction, is compared with the reference rendering; config value and `show` must equal the announced version. Further layouts: a README with the bare {version}/{pep440_version} pair `init` writes and the version twice on a line; the same pattern two and three times on one line; occurrences glued to a letter or underscore; 20,000-character lines and a 6,000-line file with occurrences far apart; look-alike sections of other tools with their own current_version before the bumpver section; a config file that holds a second version line and is named only by a glob or another spelling of its path. The same layouts are run again with files that show ANOTHER version than the config (stale occurrences): every matched place must still end at the new version.',
+    'text': 'Complete enumeration of a constructed project table (pattern/state pairs x config formats x layouts x arrangements incl. all orders of different patterns on one line x line-ending regimes); each project is updated by the real CLI in-process and every occurrence, whose position and expected text are known by construction, is compared with the reference rendering; config value and `show` must equal the announced version. Further layouts: a $-anchored pattern in a file that mixes LF and CRLF lines (known finding); hidden files and directories under globs; a README with the bare {version}/{pep440_version} pair `init` writes and the version twice on a line; the same pattern two and three times on one line; occurrences glued to a letter or underscore; 20,000-character lines and a 6,000-line file with occurrences far apart; look-alike sections of other tools with their own current_version before the bumpver section; a config file that holds a second version line and is named only by a glob or another spelling of its path. The same layouts are run again with files that show ANOTHER version than the config (stale occurrences): every matched place must still end at the new version.',
     'note': 'more than 3 occurrences per line and files beyond a few hundred bytes are outside the bound; {pep440_version} occurrences are judged by PEP 440 equality (packaging) with the announced version',
     'technique': 'exhaustive enumeration of a bounded project/layout space executed on the real CLI, by-construction oracle',
 }
@@ -131,9 +131,10 @@ def layouts(pat, old, new, tier, fmt):
         ids = "+".join(fp.pid for fp in s)
         fx = projgen.build_file("src/x.txt", s, "own-lines", "ascii", "LF", True)
         fy = projgen.build_file("src/y.txt", s, ("repeat", 2), "ascii", "LF", True)
-        yield (f"glob:{ids}", "glob-entry", [fx, fy], [("src/*.txt", [fp.raw for fp in s])], False)
+        fh = projgen.build_file("src/.hidden.txt", s, "own-lines", "ascii", "LF", True)  # (a wildcard also reaches names with a leading dot)
+        yield (f"glob:{ids}", "glob-entry", [fx, fy, fh], [("src/*.txt", [fp.raw for fp in s])], False)
         # recursive glob: files directly in src/, one level and three levels down
-        deep = [projgen.build_file(n, s, "own-lines", "ascii", "LF", True) for n in ("src/top.txt", "src/pkg/mid.txt", "src/pkg/sub/deep/leaf.txt")]
+        deep = [projgen.build_file(n, s, "own-lines", "ascii", "LF", True) for n in ("src/top.txt", "src/pkg/mid.txt", "src/pkg/sub/deep/leaf.txt", "src/.ci/hidden-dir.txt")]
         yield (f"glob-recursive:{ids}", "recursive-glob-entry", deep, [("src/**/*.txt", [fp.raw for fp in s])], False)
         q = [projgen.build_file(n, s, "own-lines", "ascii", "LF", True) for n in ("docs/a1.txt", "docs/b2.txt")]
         yield (f"glob-charclass:{ids}", "glob-entry", q, [("docs/[ab]?.txt", [fp.raw for fp in s])], False)
@@ -177,6 +178,8 @@ def run_chunk(chunk):
     if fmt == "bumpver.toml":
         size_projects(st, pat, label, old, new, fmt)
     init_default_readme(st, pat, label, old, new, fmt)
+    if fmt == "bumpver.toml":
+        anchored_in_mixed_endings(st, pat, label, old, new, fmt)
     # stale occurrences: the files show ANOTHER version than the config's current_version (a file that was not kept up to date,
     # or an update that starts from a tag on another branch); every matched place must still end up at the new version
     for k, stale in enumerate(stale_states(pat, old, new, tier)):
@@ -194,6 +197,36 @@ def run_chunk(chunk):
         st.sample({"pattern": pat.text, "states": label, "format": fmt, "layouts": n})
     os.chdir("/")
     return st
+
+
+def anchored_in_mixed_endings(st, pat, label, old, new, fmt):
+    """A `$`-anchored pattern in a file that mixes LF and CRLF lines, one occurrence on a line of each kind."""
+    old_text, new_text = M.render(pat.tree, old), M.render(pat.tree, new)
+    for first, second in (("\n", "\r\n"), ("\r\n", "\n")):
+        body = f"title{first}Version: {old_text}{first}mid{second}Version: {old_text}{second}end{second}"
+        tree = {fmt: pt.config_text(fmt, pat.text, old_text, [("r.txt", ["Version: {version}$"])]).encode("utf-8"), "r.txt": body.encode("utf-8")}
+        world.clear_dir(".")
+        world.write_tree(tree)
+        o = world.cli("update", "--no-fetch", "--ignore-vcs-tag", "--set-version", new_text)
+        st.evaluations += 1
+        st.transitions += 1
+        name = {"\n": "LF", "\r\n": "CRLF"}
+        case = {"pattern": pat.text, "states": label, "old": old_text, "new": new_text, "format": fmt, "mixed_anchored": name[first] + "-then-" + name[second]}
+        after = world.read_tree(".").get("r.txt", b"").decode("utf-8", "replace")
+        st.observe((case, o.exit, o.crashed, after))
+        st.state("mixed-anchored", pat.text, label, after)
+        if o.exit != 0:
+            st.outcomes["update-refused:anchored-pattern-in-mixed-line-endings"] += 1
+            continue
+        st.validated += 1
+        st.nontriv(case)
+        want = body.replace(old_text, o.new_version)
+        if after == want:
+            st.outcomes["updated:anchored-pattern-in-mixed-line-endings"] += 1
+            continue
+        stale = [name[sep] for sep in (first, second) if f"Version: {old_text}{sep}" in after]
+        st.outcomes["violation"] += 1
+        st.violation("C03:occurrence:anchored-pattern:mixed-line-endings:stale-on-" + "+".join(stale or ["?"]) + "-terminated-line", case, {"content_after": after})
 
 
 def init_default_readme(st, pat, label, old, new, fmt):
@@ -461,6 +494,10 @@ def replay(case, st):
                         if case.get("respelled"):
                             arrangement = "set-version-respelled"
                         stale = None
+                        if case.get("mixed_anchored"):
+                            anchored_in_mixed_endings(st, pat, label, old, new, case["format"])
+                            os.chdir("/")
+                            return
                         if case.get("init_default_readme"):
                             init_default_readme(st, pat, label, old, new, case["format"])
                             os.chdir("/")
